@@ -2,6 +2,7 @@ package chain
 
 import (
 	"fmt"
+	"regexp"
 	"time"
 	"sort"
 	"strings"
@@ -65,6 +66,7 @@ type RunStats struct {
 	OpsOK      int
 	ByKindOK   map[string]int
 	ByKindFail map[string]int
+	Reasons    map[string]int // rejection reasons per kind (diagnostics of generator soundness)
 	Halt       *HaltInfo
 	HarnessStop bool
 	GapClamps  int
@@ -74,7 +76,7 @@ type RunStats struct {
 // RunHistory executes a history on a fresh application under one monitor.
 // Returned error = infrastructure problem (never a property verdict).
 func RunHistory(h History, mon Monitor) (*RunStats, *Trace, *pbt.Violation, error) {
-	rs := &RunStats{ByKindOK: map[string]int{}, ByKindFail: map[string]int{}}
+	rs := &RunStats{ByKindOK: map[string]int{}, ByKindFail: map[string]int{}, Reasons: map[string]int{}}
 	tr := &Trace{}
 	c, err := NewChain(h.Genesis)
 	if err != nil {
@@ -139,6 +141,7 @@ func RunHistory(h History, mon Monitor) (*RunStats, *Trace, *pbt.Violation, erro
 					rs.ByKindOK[t.Op.K]++
 				} else {
 					rs.ByKindFail[t.Op.K]++
+					rs.Reasons[t.Op.K+": "+reason(o)]++
 				}
 			}
 			tr.addf("  %-11s a=%d %s -> %s", t.Op.K, t.Signer.Idx, describeMsgs(t.Msgs), describeRes(o))
@@ -265,4 +268,23 @@ func (c *Chain) clampGap(gap time.Duration, rs *RunStats) time.Duration {
 		}
 	}
 	return gap
+}
+
+var reasonDigits = regexp.MustCompile(`[0-9]+`)
+var reasonAddr = regexp.MustCompile(`(tellor[a-z0-9]{20,}|hexBytes:[0-9a-f]+|[0-9a-fA-F]{24,})`)
+
+func reason(o TxOutcome) string {
+	if o.Res == nil {
+		return "unsignable/no-result"
+	}
+	l := o.Res.Log
+	if i := strings.Index(l, "message index: "); i >= 0 {
+		l = l[i+len("message index: 0: "):]
+	}
+	l = reasonAddr.ReplaceAllString(l, "X")
+	l = reasonDigits.ReplaceAllString(l, "N")
+	if len(l) > 70 {
+		l = l[:70]
+	}
+	return l
 }
